@@ -153,6 +153,8 @@ class SimInverter:
             return None
         q = dict(p)
         q.update(override)
+        if isinstance(q.get("payload"), str):
+            q["payload"] = bytes.fromhex(q["payload"])
         if q["framing"] in ("rtu", "tcp"):
             if q["fc"] == 3:
                 q.setdefault("count", 1)
